@@ -2,7 +2,7 @@
    what the real functions returned, and oracle tables filled from the real
    go-runewidth / uniseg: for the string and each of its lines the grapheme
    clusters (as runes), and RuneWidth for every rune that occurs. *)
-From Tab Require Export Run.Glue Model.Length Model.Cell Spec.Length Spec.CellText.
+From Tab Require Export Run.Glue Model.Length Model.Cell Model.CellFail Spec.Length Spec.CellText.
 
 Definition seg_of (tab : list (list N * list (list Z))) (k : list N) : list (list Z) :=
   match find (fun p => bytes_eqb (fst p) k) tab with Some p => snd p | None => [] end.
@@ -33,7 +33,9 @@ Record c18_obs := mkObs18 {
   o_render : list N;          (* i_rmode <> 0: a one-cell table holding the item, rendered by texttable (ascii-simple) *)
   o_render_last : list N;     (* kind 5: the table that holds the cell, rendered after the last step *)
   o_grid   : list (list N);   (* grid probe: the table rendered through ONE texttable wrapper (ascii-simple), once per stage *)
-  o_gridw  : list (list N * nat) (* length.StringCells of every line of every text of the grid *)
+  o_gridw  : list (list N * nat); (* length.StringCells of every line of every text of the grid *)
+  o_nocell : bool;            (* NewCell panicked (the item's text method did): there is no cell, o_cell is a dummy *)
+  o_panicked : list bool      (* per step: that Update() call panicked *)
 }.
 
 (* grid probe: a whole table of texts (no item overrides its size).  A stage is
@@ -62,7 +64,9 @@ Record c18_in := mkIn18 {
   i_seg  : list (list N * list (list Z));
   i_rw   : list (Z * nat);
   i_cw   : list (list Z * nat);  (* runewidth.StringWidth of every cluster on its own *)
-  i_grid : list g_stage
+  i_grid : list g_stage;
+  i_fails : list bool         (* the item's text method panics when called: head = while the cell is created,
+                                 then one per step; missing entries = it does not *)
 }.
 
 Definition meas_eqb (a b : meas) : bool :=
@@ -85,10 +89,24 @@ Definition cellobs_ok (t : list N) (o : c18_cellobs) : bool :=
   && (length (co_lw o) =? length (co_lines o))
   && Z.eqb (co_w o) (Z.of_nat (list_max (co_lw o))).
 
-Fixpoint steps_ok (kind : nat) (s : list N) (nexts : list (list N)) (obs : list c18_cellobs) : bool :=
+(* the same clause when the property does not say which text the cell shows
+   (the item's text method panicked during this very call): whatever the cell
+   shows now, its height and width are those of that text *)
+Definition cellobs_consistent (o : c18_cellobs) : bool :=
+  lines_eqb (co_lines o) (spec_lines (co_text o))
+  && Z.eqb (co_h o) (Zlen (co_lines o))
+  && (length (co_lw o) =? length (co_lines o))
+  && Z.eqb (co_w o) (Z.of_nat (list_max (co_lw o))).
+
+Definition fail_hd (fs : list bool) : bool := match fs with f :: _ => f | [] => false end.
+Definition fail_tl (fs : list bool) : list bool := match fs with _ :: r => r | [] => [] end.
+
+Fixpoint steps_ok (kind : nat) (s : list N) (nexts : list (list N)) (fails : list bool) (obs : list c18_cellobs) : bool :=
   match nexts, obs with
   | [], [] => true
-  | t :: nexts', o :: obs' => cellobs_ok (if c18_mutable kind then t else s) o && steps_ok kind s nexts' obs'
+  | t :: nexts', o :: obs' =>
+      (if fail_hd fails then cellobs_consistent o else cellobs_ok (if c18_mutable kind then t else s) o)
+      && steps_ok kind s nexts' (fail_tl fails) obs'
   | _, _ => false
   end.
 
@@ -214,9 +232,13 @@ Definition C18_ok (i : c18_in) (ob : res c18_obs) : bool :=
       (* longest = maximum of the per-line measure *)
       && meas_eqb (o_long o) (list_max (map mB (o_lmeas o)), list_max (map mR (o_lmeas o)), list_max (map mC (o_lmeas o)))
       (* the cell, fresh and after every Update *)
-      && cellobs_ok s (o_cell o)
-      && list_eqb Nat.eqb (co_lw (o_cell o)) (map mC (o_lmeas o))
-      && steps_ok (i_kind i) s (i_next i) (o_steps o)
+      && (if o_nocell o then
+            (* no cell came into existence: nothing to hold, provided the item's method did fail *)
+            fail_hd (i_fails i) && is_nil (o_steps o)
+          else
+            (if fail_hd (i_fails i) then cellobs_consistent (o_cell o)
+             else cellobs_ok s (o_cell o) && list_eqb Nat.eqb (co_lw (o_cell o)) (map mC (o_lmeas o)))
+            && steps_ok (i_kind i) s (i_next i) (fail_tl (i_fails i)) (o_steps o))
       (* the text renderer lays the cell out by exactly these numbers *)
       && match i_rmode i with
          | 0 => true
@@ -224,7 +246,9 @@ Definition C18_ok (i : c18_in) (ob : res c18_obs) : bool :=
          end
       && match i_kind i with
          | 5 => let lo := last (o_steps o) (o_cell o) in
-                bytes_eqb (o_render_last o) (render_expected 1 (spec_lines (last_text i)) (co_lw lo))
+                (* after a call cut short by the item, the table shows whatever the cell shows *)
+                let lt := if existsb (fun b => b) (i_fails i) then co_text lo else last_text i in
+                bytes_eqb (o_render_last o) (render_expected 1 (spec_lines lt) (co_lw lo))
          | _ => true
          end
       (* whole tables: layout and emit agree, at every stage through one wrapper *)
@@ -247,14 +271,22 @@ Definition cellobs_of (W : list N -> nat) (c : cell) : res c18_cellobs :=
   bind (layout_nlines c) (fun _ =>
   Ok (mkCO18 (cell_text c) cl (cell_height c) (cell_width c) (map W cl)))).
 
-Fixpoint steps_model (W : list N -> nat) (kind : nat) (c : cell) (nexts : list (list N)) : res (list c18_cellobs) :=
+(* one Update() per step on the same cell; a step whose call panics (the
+   caller recovers) leaves the cell as Model/CellFail.v says *)
+Fixpoint steps_model (W : list N -> nat) (kind : nat) (c : cell) (nexts : list (list N)) (fails : list bool)
+  : res (list c18_cellobs * list bool) :=
   match nexts with
-  | [] => Ok []
+  | [] => Ok ([], [])
   | t :: rest =>
-      bind (update_r W (c18_env_for kind t) c) (fun c' =>
+      let e := c18_env_for kind t in
+      let f := fail_hd fails in
+      let c' := update_f W e f c in
+      bind (match update_fr W e f c with Ok _ => Ok false | Panic => Ok true | Err => Err end) (fun p =>
       bind (cellobs_of W c') (fun o =>
-      bind (steps_model W kind c' rest) (fun os => Ok (o :: os))))
+      bind (steps_model W kind c' rest (fail_tl fails)) (fun r => Ok (o :: fst r, p :: snd r))))
   end.
+
+Definition dummy_cellobs : c18_cellobs := mkCO18 [] [] 0 0 [].
 
 Definition c18_run (i : c18_in) : res c18_obs :=
   let s := i_s i in
@@ -272,10 +304,14 @@ Definition c18_run (i : c18_in) : res c18_obs :=
   bind (longest_line_bytes s) (fun lb =>
   bind (longest_line_runes s) (fun lr =>
   bind (longest_line_cells seg rw s) (fun lc =>
-  bind (new_cell_r W e it) (fun c =>
+  match new_cell_fr W e (fail_hd (i_fails i)) it with
+  | Panic => Ok (mkObs18 ls (map ms ls) (ms s) (lb, lr, lc) dummy_cellobs [] [] [] [] [] true [])
+  | Err => Err
+  | Ok c =>
   bind (cellobs_of W c) (fun co =>
-  bind (steps_model W (i_kind i) c (i_next i)) (fun st =>
-  Ok (mkObs18 ls (map ms ls) (ms s) (lb, lr, lc) co st [] [] [] [])))))))).
+  bind (steps_model W (i_kind i) c (i_next i) (fail_tl (i_fails i))) (fun st =>
+  Ok (mkObs18 ls (map ms ls) (ms s) (lb, lr, lc) co (fst st) [] [] [] [] false (snd st))))
+  end)))).
 
 Definition cellobs_eqb (a b : c18_cellobs) : bool :=
   bytes_eqb (co_text a) (co_text b)
@@ -291,7 +327,9 @@ Definition obs18_eqb (a b : c18_obs) : bool :=
   && meas_eqb (o_whole a) (o_whole b)
   && meas_eqb (o_long a) (o_long b)
   && cellobs_eqb (o_cell a) (o_cell b)
-  && list_eqb cellobs_eqb (o_steps a) (o_steps b).
+  && list_eqb cellobs_eqb (o_steps a) (o_steps b)
+  && Bool.eqb (o_nocell a) (o_nocell b)
+  && list_eqb Bool.eqb (o_panicked a) (o_panicked b).
 
 (* every string that gets measured: s, the texts it is changed to, and all their lines *)
 Definition c18_strings (i : c18_in) : list (list N) :=
